@@ -15,7 +15,7 @@ Copy, Close/Open with sizes taken from the files, preallocation) next to the abs
      whether every observation equals the byte array at some moment between its call and its return.
 Deviations of the real code that the transcription predicts are the known findings of findings/C17.json; anything
 else is a VIOLATION."""
-import json, os, sys, time, concurrent.futures as cf
+import json, os, re, sys, time, concurrent.futures as cf
 sys.path.insert(0, os.path.join(os.path.dirname(os.path.abspath(__file__)), "..", "lib"))
 import vlib
 from vlib import MachineryFault
@@ -91,19 +91,20 @@ def run(chk, args):
     ]
     if thorough:
         design = []
-        for (re, au) in rm:
+        for (rt, au) in rm:
             design += [
-                ("multi F=3 W=2 maxOpen=1", dict(F=3, W=2, mo=1, retry=re, auto=au, mb=8)),
-                ("multi F=3 W=2 maxOpen=2", dict(F=3, W=2, mo=2, retry=re, auto=au, mb=7)),
-                ("multi F=4 W=3 maxOpen=1", dict(F=4, W=3, mo=1, retry=re, auto=au, mb=9, ma=5)),
-                ("multi F=2 W=3 maxOpen=2", dict(F=2, W=3, mo=2, retry=re, auto=au, mb=7)),
-                ("multi F=2 W=1 maxOpen=1", dict(F=2, W=1, mo=1, retry=re, auto=au, mb=7)),
-                ("single W=2", dict(multi=False, F=64, W=2, retry=re, auto=au, mb=8)),
-                ("single W=3", dict(multi=False, F=64, W=3, retry=re, auto=au, mb=7)),
-                ("multi prealloc F=2 W=1", dict(F=2, W=1, pre=2, mb=4, mc=2, retry=re, auto=au)),
-                ("single prealloc 3 W=2", dict(multi=False, F=64, W=2, pre=3, mb=4, retry=re, auto=au)),
+                ("multi F=3 W=2 maxOpen=1", dict(F=3, W=2, mo=1, retry=rt, auto=au, mb=7)),
+                ("multi F=3 W=2 maxOpen=2", dict(F=3, W=2, mo=2, retry=rt, auto=au, mb=7)),
+                ("multi F=4 W=3 maxOpen=1", dict(F=4, W=3, mo=1, retry=rt, auto=au, mb=7, ma=5)),
+                ("multi F=2 W=3 maxOpen=2", dict(F=2, W=3, mo=2, retry=rt, auto=au, mb=6)),
+                ("multi F=2 W=1 maxOpen=1", dict(F=2, W=1, mo=1, retry=rt, auto=au, mb=6)),
+                ("single W=2", dict(multi=False, F=64, W=2, retry=rt, auto=au, mb=7)),
+                ("single W=3", dict(multi=False, F=64, W=3, retry=rt, auto=au, mb=6)),
+                ("multi prealloc F=2 W=1", dict(F=2, W=1, pre=2, mb=3, mc=2, retry=rt, auto=au)),
+                ("single prealloc 3 W=2", dict(multi=False, F=64, W=2, pre=3, mb=3, retry=rt, auto=au)),
             ]
-        design.append(("multi prealloc F=3 W=2", dict(F=3, W=2, pre=3, mb=4, mc=2)))
+        design.append(("multi F=3 W=2 maxOpen=1 (8 bytes)", dict(F=3, W=2, mo=1, mb=8)))
+        design.append(("multi prealloc F=3 W=2", dict(F=3, W=2, pre=3, mb=3, mc=2)))
     for name, k in design:
         nm = "design %s retry=%s auto=%s" % (name, k.get("retry", False), k.get("auto", False))
         jobs.append(("design", nm, mk(inv="TypeOK " + " ".join(NAMED), **k), [], 2, k))
@@ -130,17 +131,17 @@ def run(chk, args):
     # ---- 2a. behaviours for replay: simulation of the code-as-transcribed configuration ------------------------------
     matrix = []
     for multi in (True, False):
-        for (re, au) in rm:
+        for (rt, au) in rm:
             for pre in (False, True):
                 if multi:
                     for (F, W, mo) in [(4, 3, 1), (4, 2, 2), (8, 3, 1), (16, 5, 2), (5, 8, 1)]:
-                        matrix.append(dict(multi=True, F=F, W=W, mo=mo, retry=re, auto=au, pre=F if pre else 0))
+                        matrix.append(dict(multi=True, F=F, W=W, mo=mo, retry=rt, auto=au, pre=F if pre else 0))
                 else:
                     for W in (2, 3, 8):
-                        matrix.append(dict(multi=False, F=64, W=W, mo=1, retry=re, auto=au, pre=4 if pre else 0))
+                        matrix.append(dict(multi=False, F=64, W=W, mo=1, retry=rt, auto=au, pre=4 if pre else 0))
     if thorough:
         sims = matrix
-        nsim = 400
+        nsim = 150
     else:
         # a seed-dependent slice of the matrix: 4 multi-file (with and without preallocation) and 2 single-file
         # configurations with pairwise different sync modes
@@ -176,7 +177,7 @@ def run(chk, args):
 
     def _tlc_job(j):
         kind, name, text, extra, workers, meta = j
-        return j, vlib.run_tlc("Appendable", "c17.cfg", workers=workers, timeout=3000 if thorough else 900, extra=extra,
+        return j, vlib.run_tlc("Appendable", "c17.cfg", workers=workers, timeout=3000 if thorough else 1500, extra=extra,
                                files=[("c17.cfg", text)], javaopts=JAVA, tag="C17tlc")
 
     with cf.ThreadPoolExecutor(8 if thorough else 7) as ex:
@@ -217,6 +218,10 @@ def run(chk, args):
             if len(bs) < nsim // 2:
                 raise MachineryFault("simulation %s printed only %d behaviours" % (name, len(bs)))
             chk.add_tlc(res, "simulate " + name)
+            m = re.search(r"Progress: (\d+) states checked, (\d+) traces generated", res.out)
+            if m:
+                chk.cov["simulated_states"] = chk.cov.get("simulated_states", 0) + int(m.group(1))
+                chk.cov["simulated_traces"] = chk.cov.get("simulated_traces", 0) + int(m.group(2))
             replay_sets.setdefault("sim " + name, (meta, []))[1].extend(bs)
 
     # ---- 2b. replay on the real code -----------------------------------------------------------------------------------
@@ -239,15 +244,36 @@ def run(chk, args):
         if st:
             a += ["-selftest", st]
         t0 = time.time()
-        out, _ = vlib.run_harness(binp, a, timeout=3000 if thorough else 900)
+        out, _ = vlib.run_harness(binp, a, timeout=3000 if thorough else 1500)
         vlib.log("[replay] %-70s %d behaviours %.1fs" % (name[:70], n, time.time() - t0))
         return name, json.loads(out)
 
     with cf.ThreadPoolExecutor(8) as ex:
         rres = list(ex.map(replay_job, rjobs))
     nb = 0
-    for (name, p, d, n), (_, r) in zip(rjobs, rres):
-        nb += n
+    for j, (_, r) in zip(rjobs, rres):
+        nb += j[3]
+        # flake guard (DESIGN.md 1.3): a violation that is not a known finding must re-occur when its behaviour is re-run alone
+        keep = []
+        for v in r.get("violations") or []:
+            if is_known(chk, v["sig"]):
+                keep.append(v)
+                continue
+            rp = v.get("replay") or {}
+            allb = json.load(open(j[1]))
+            if "behaviour" not in rp:
+                keep.append(v)
+                continue
+            one = dict(allb, behaviours=[allb["behaviours"][rp["behaviour"]]])
+            p1 = j[1] + ".rerun%d.json" % len(keep)
+            json.dump(one, open(p1, "w"))
+            _, r2 = replay_job((j[0] + " (re-run)", p1, j[2] + "r", 1))
+            if any(v2["sig"] == v["sig"] for v2 in r2.get("violations") or []):
+                v["replay"]["replay_input"] = one
+                keep.append(v)
+            else:
+                chk.notes.append({"unreproduced": v["sig"], "text": v["text"][:300]})
+        r["violations"] = keep
         vlib.absorb(chk, r)
     chk.cov["behaviours_replayed"] = nb
     chk.cov["steps_replayed"] = chk.cov["evaluations"]
@@ -284,6 +310,11 @@ def run(chk, args):
         "process crashes are C03's subject: here Close/Open only",
         "exhaustive runs: at most 6-9 appended bytes, chunk size 2-4, buffer 1-3, cache 1-2 (state graph explored to its fixpoint, no depth bound)",
     ]
+
+
+def is_known(chk, sig):
+    return any(f.get("property") == chk.pid and f.get("status") == "open" and vlib._sig_match(f.get("signature", ""), sig)
+               for f in chk._findings.get("findings", []))
 
 
 def vlib_hash(seed, i):
